@@ -229,6 +229,11 @@ func body(c cfg, r *run) func(*vsched.Exec) {
 				if strings.HasPrefix(c.Kind, "otlp") && (c.Always != 0 || len(r.faults)%2 == 1) {
 					return bk.HTTPAnswer{Status: 503} // an error status with an empty body (what a proxy sends)
 				}
+				if len(r.faults)%3 == 2 {
+					// every third refusal is a 304, as a cache or proxy in front of the service may answer (Go's client hands a
+					// 3xx without Location back as it is): not a delivery either
+					return bk.HTTPAnswer{Status: 304}
+				}
 				return bk.HTTPAnswer{Status: 503, Body: []byte("busy")}
 			case 2:
 				return bk.HTTPAnswer{Err: errors.New("connection reset")}
